@@ -10,8 +10,15 @@
    incl. the re-encoding of every token by the forked encoder, comments inside <version>, CDATA, and the
    inserted dependencyManagement block.  Definitions only (no proofs). *)
 From Coq Require Import List ZArith NArith Bool.
-From Scalibr Require Import Writers.GoBytes Writers.PomProps Writers.PomDecl.
+From Scalibr Require Import Writers.GoBytes Writers.PomProps Writers.PomDecl Writers.PomTokens.
 Import ListNotations.
+
+(* the token streams of one pom of the chain *)
+Record tokfile := {
+  tf_in : list tok;          (* encoding/xml tokens of the input file *)
+  tf_out : list tok;         (* ... of the written file *)
+  tf_vmap : list nat;        (* per rewritten <version> element, in document order: index of its declaration *)
+  tf_pmap : list nat }.      (* per direct child of <properties>: index of its property definition *)
 
 Record mcase := {
   mc_prop_pairs : list (bytes * bytes);  (* (s1, s2) of the generatePropertyPatches calls Write has to make *)
@@ -25,15 +32,18 @@ Record mcase := {
   mc_claimed : bool;                     (* harness: its own structural domain (kept as a cross-check of d_full) *)
   mc_panic : bool;
   mc_error : bool;
-  mc_good : bool }.                      (* observed: success AND token sequence preserved AND re-read requirements
+  mc_good : bool;                        (* observed: success AND token sequence preserved AND re-read requirements
                                             substituted AND the Go effective-version reference agrees *)
+  mc_tokfiles : list tokfile;            (* token streams, one per pom of the chain *)
+  mc_texts : texts;                      (* the interned texts the token model may need *)
+  mc_tok_dump_ok : bool }.               (* harness: token streams dumped for every pom (no added entries) *)
 
 Definition pair_panics (p : bytes * bytes) : bool := is_panic (generate_property_patches (fst p) (snd p)).
 Definition write_panics (pairs : list (bytes * bytes)) : bool := existsb pair_panics pairs.
 
 (* model = implementation: no panic; on inputs where the Go code is deterministic (chain_frag) the written
    declarations and properties are the model's *)
-Definition mcase_model_ok (c : mcase) : bool :=
+Definition mcase_decl_model_ok (c : mcase) : bool :=
   Bool.eqb (write_panics (mc_prop_pairs c)) (mc_panic c) &&
   (negb (mc_chain_ok c && chain_frag (mc_chain c) (mc_updates c)) ||
    match write_chain (mc_chain c) (mc_updates c), mc_dobs c with
@@ -41,6 +51,64 @@ Definition mcase_model_ok (c : mcase) : bool :=
    | None, DObsErr => true
    | _, _ => mc_panic c
    end).
+
+(* ------------------------------------------------------------------ the token level *)
+Definition dec_of_bytes (tbl : texts) (old new : bytes) : decision :=
+  if beq old new then DKeep else DSet (if is_nil new then None else Some (id_of tbl new)).
+
+(* the decisions of the token writer, taken from the declaration-level result *)
+Definition vdecs (tbl : texts) (p p' : pom) (vmap : list nat) : list decision :=
+  map (fun j => match nth_error (pm_decls p) j, nth_error (pm_decls p') j with
+                | Some d, Some d' => dec_of_bytes tbl (dl_ver d) (dl_ver d')
+                | _, _ => DKeep
+                end) vmap.
+
+Definition pdecs (tbl : texts) (p p' : pom) (pmap : list nat) : list decision :=
+  map (fun j => match nth_error (pm_props p) j, nth_error (pm_props p') j with
+                | Some f, Some f' => dec_of_bytes tbl (pf_val f) (pf_val f')
+                | _, _ => DKeep
+                end) pmap.
+
+Fixpoint tok_files_ok (tbl : texts) (c c' : chain) (fs : list tokfile) : bool :=
+  match c, c', fs with
+  | p :: c1, p' :: c1', f :: fs1 =>
+    tok_eqb (write_tokens tbl (vdecs tbl p p' (tf_vmap f)) (pdecs tbl p p' (tf_pmap f)) (tf_in f)) (tf_out f) &&
+    tok_files_ok tbl c1 c1' fs1
+  | [], [], [] => true
+  | _, _, _ => false
+  end.
+
+(* token model = implementation: the written token stream of every pom is the token writer applied to the input
+   stream with the decisions of the declaration-level model *)
+Definition mcase_tok_model_ok (c : mcase) : bool :=
+  negb (mc_tok_dump_ok c && mc_chain_ok c && chain_frag (mc_chain c) (mc_updates c)) ||
+  match write_chain (mc_chain c) (mc_updates c) with
+  | Some c' => tok_files_ok (mc_texts c) (mc_chain c) c' (mc_tokfiles c)
+  | None => true
+  end.
+
+Definition mcase_model_ok (c : mcase) : bool := mcase_decl_model_ok c && mcase_tok_model_ok c.
+
+(* token spec on the implementation's own output: nothing outside the rewritten elements differs; with no updates
+   and plainly spelled versions the stream is identical *)
+Fixpoint tok_spec_files (tbl : texts) (zero : bool) (c c' : chain) (fs : list tokfile) : bool :=
+  match c, c', fs with
+  | p :: c1, p' :: c1', f :: fs1 =>
+    let pd := pdecs tbl p p' (tf_pmap f) in
+    tok_eqb (stripped pd (tf_out f)) (stripped pd (tf_in f)) &&
+    (negb (zero && plain (tf_in f)) || tok_eqb (tf_out f) (tf_in f)) &&
+    tok_spec_files tbl zero c1 c1' fs1
+  | [], [], [] => true
+  | _, _, _ => false
+  end.
+
+(* which children of <properties> were addressed is read off the OBSERVED declaration-level result *)
+Definition mcase_tok_spec_ok (c : mcase) : bool :=
+  negb (mc_tok_dump_ok c) ||
+  match mc_dobs c with
+  | DObsOk o => tok_spec_files (mc_texts c) (mc_zero_updates c) (mc_chain c) o (mc_tokfiles c)
+  | _ => false
+  end.
 
 (* the domain of the oracle: the token-level part (harness) and D_full (Coq) *)
 Definition mcase_in_domain (c : mcase) : bool :=
@@ -53,7 +121,7 @@ Definition mcase_decl_spec (c : mcase) : bool :=
   | _ => false
   end.
 
-Definition mcase_spec_full (c : mcase) : bool := mc_good c && mcase_decl_spec c.
+Definition mcase_spec_full (c : mcase) : bool := mc_good c && mcase_decl_spec c && mcase_tok_spec_ok c.
 
 Definition mcase_spec_ok (c : mcase) : bool := negb (mcase_in_domain c) || mcase_spec_full c.
 
